@@ -263,9 +263,15 @@ def run(cx):
     sync_reply_mechanism(cx, "C10.f", "C10.g")
     from props.shared import dispatch_table
     dispatch_table(cx, "C10.h", only={"DataFrame", "SyncFrame", "AckFrame"})
+    # keepalives must actually leave: the credit test may refuse them only when the credit is negative
+    from props.shared import sync_refusal_exact
+    sync_refusal_exact(cx, "C10.i")
 
 
 SELFTEST = [
+    {"name": "keepalive refused at zero credit",
+     "edits": [{"file": "src/half_connection/mod.rs", "old": "            if self.flush_alloc < 0 {\n                return Err(());", "new": "            if self.flush_alloc <= 0 {\n                return Err(());"}],
+     "expect": ["C10.i"]},
     {"name": "stop refreshing the deadline in client handle_sync",
      "edits": [{"file": "src/client/mod.rs", "old": "                state.half_connection.handle_sync_frame(frame);\n                state.timeout_time_ms = now_ms + self.config.endpoint_config.active_timeout_ms;", "new": "                state.half_connection.handle_sync_frame(frame);"}],
      "expect": ["C10.b"]},
